@@ -189,7 +189,7 @@ class TraceVerdict:
         self.states = states
 
 
-def tlc_trace(module, cfg, pid, tracefile, n_events, timeout=1800, xmx="4g", extra_env=None, sub="trace"):
+def tlc_trace(module, cfg, pid, tracefile, n_events, timeout=900, xmx="4g", extra_env=None, sub="trace"):
     """Trace validation: TLC replays the ndjson trace through the trace specification. The specification has a
     variable `l` (index of the next event).  Accepted iff TLC finishes without violated invariant and the
     POSTCONDITION (all events consumed) holds."""
